@@ -3,6 +3,7 @@ package c04
 
 import (
 	"context"
+	"time"
 
 	"github.com/jig/lisp"
 	"github.com/jig/lisp/env"
@@ -225,5 +226,100 @@ func Harness_call() {
 	e := env.NewSubordinateEnv(Base)
 	panicked, msg := vrt.NoPanic(func() { _, _ = lisp.EVAL(context.Background(), f, e) })
 	vrt.Assert(!panicked, "panic escaped EVAL (call): "+msg)
+	vrt.Reach("end")
+}
+
+// ---- malformed forms evaluated while another evaluation is in flight
+
+var (
+	holdEntered = make(chan int, 4)
+	holdRelease chan struct{}
+)
+
+func hold_BANG() (MalType, error) {
+	holdEntered <- 1
+	<-holdRelease
+	return nil, nil
+}
+
+var malformed = []MalType{
+	lst(sym("fn")),
+	lst(sym("try"), sym("x"), lst(sym("catch"))),
+	lst(sym("defmacro"), sym("m"), 1),
+	lst(sym("quasiquote"), lst(sym("unquote"))),
+	lst(lst(sym("fn"), Vector{Val: []MalType{sym("&")}}), 1),
+	lst(sym("eval")),
+}
+
+// Harness_concurrent: a malformed form never panics, whether it is evaluated on its
+// own, while a second host goroutine is in the middle of an evaluation, or by that second goroutine.
+func Harness_concurrent() {
+	f := malformed[vrt.Concrete(vrt.Choice("form", len(malformed)))]
+	inOther := vrt.Bool("inother")
+	holdRelease = make(chan struct{})
+	e := env.NewSubordinateEnv(Base)
+	call.CallOverrideFN(e, "hold!", hold_BANG)
+	done := make(chan bool, 1)
+	var otherPanicked bool
+	go func() {
+		// the other evaluation: blocks inside a builtin, then (optionally) evaluates the malformed form
+		prog := lst(sym("do"), lst(sym("hold!")), 1)
+		if inOther {
+			prog = lst(sym("do"), lst(sym("hold!")), f)
+		}
+		p, _ := vrt.NoPanic(func() { _, _ = lisp.EVAL(context.Background(), prog, e) })
+		otherPanicked = p
+		done <- true
+	}()
+	<-holdEntered // the other evaluation is now in flight
+	panicked := false
+	if !inOther {
+		panicked, _ = vrt.NoPanic(func() { _, _ = lisp.EVAL(context.Background(), f, e) })
+	} else {
+		// keep this goroutine inside an evaluation as well while the other one fails
+		panicked, _ = vrt.NoPanic(func() { _, _ = lisp.EVAL(context.Background(), lst(sym("list"), 1, 2), e) })
+	}
+	close(holdRelease)
+	<-done
+	vrt.Assert(!panicked && !otherPanicked, "panic escaped EVAL while another evaluation was in flight")
+	vrt.Reach("end")
+}
+
+// doneCtx is a context that is already cancelled (or past its deadline).
+type doneCtx struct{ deadline bool }
+
+func (c doneCtx) Deadline() (time.Time, bool) {
+	if c.deadline {
+		return time.Unix(1, 0), true
+	}
+	return time.Time{}, false
+}
+func (c doneCtx) Done() <-chan struct{} { ch := make(chan struct{}); close(ch); return ch }
+func (c doneCtx) Err() error {
+	if c.deadline {
+		return context.DeadlineExceeded
+	}
+	return context.Canceled
+}
+func (c doneCtx) Value(any) any { return nil }
+
+// Harness_cancelled: evaluation under an already ended context returns an error, never panics,
+// whatever the form: atoms of every kind, collections, special forms, calls.
+func Harness_cancelled() {
+	g := gen()
+	g.Lazy = false
+	var f MalType
+	switch vrt.Concrete(vrt.Choice("what", 3)) {
+	case 0:
+		f = g.Value("v", 1) // self-evaluating atoms and literal collections
+	case 1:
+		f = form("f", 0, true)
+	default:
+		f = lst(sym("try"), g.Value("v", 0), lst(sym("catch"), sym("e"), g.Value("h", 0)), lst(sym("finally"), g.Value("fin", 0)))
+	}
+	ctx := doneCtx{deadline: vrt.Bool("deadline")}
+	e := env.NewSubordinateEnv(Base)
+	panicked, msg := vrt.NoPanic(func() { _, _ = lisp.EVAL(ctx, f, e) })
+	vrt.Assert(!panicked, "panic escaped EVAL under an ended context: "+msg)
 	vrt.Reach("end")
 }
